@@ -1,6 +1,7 @@
 package engines
 
 import (
+	kruiseappsv1alpha1 "github.com/openkruise/kruise-api/apps/v1alpha1"
 	"context"
 	"encoding/json"
 	"fmt"
@@ -90,6 +91,7 @@ type writeLog struct {
 	log         []string
 	failIngress bool // fail the next Get of an Ingress (fault injection)
 	failIngressAll bool // fail every Get of an Ingress (fault injection for a whole reconcile)
+	failWorkload   bool // fail the next typed Get of the workload (a CloneSet)
 }
 
 func (w *writeLog) Get(ctx context.Context, key client.ObjectKey, obj client.Object, opts ...client.GetOption) error {
@@ -98,6 +100,10 @@ func (w *writeLog) Get(ctx context.Context, key client.ObjectKey, obj client.Obj
 		return fmt.Errorf("injected: the API server is unavailable")
 	}
 	if _, ok := obj.(*netv1.Ingress); ok && w.failIngressAll {
+		return fmt.Errorf("injected: the API server is unavailable")
+	}
+	if _, ok := obj.(*kruiseappsv1alpha1.CloneSet); ok && w.failWorkload {
+		w.failWorkload = false
 		return fmt.Errorf("injected: the API server is unavailable")
 	}
 	return w.Client.Get(ctx, key, obj, opts...)
